@@ -4,7 +4,7 @@ From Verif.Gen Require Operators.
 From Verif.Eco Require Import RangeCore.
 
 (* operators in parseRPMConstraint, source order *)
-(* the list is generated from the Go source on every run (tools/gen -> Gen/Operators.v) *)
+(* generated from the Go source on every run (tools/gen -> Gen/Operators.v) *)
 Definition rpm_ops : list bytes :=
   Eval cbv delta [Verif.Gen.Operators.rpm_ops] in Verif.Gen.Operators.rpm_ops.
 
